@@ -281,7 +281,7 @@ func (c *Check) Finish() {
 		"evaluations":                   c.Evals.Load(),
 		"distinct_nontrivial":           len(c.distinct),
 		"rule":                          c.rule,
-		"samples":                       c.samples,
+		"samples":                       samplesOrOutcomes(c.samples, classes),
 		"states":                        max64(c.States.Load(), c.Evals.Load()),
 		"transitions":                   max64(c.Transitions.Load(), c.Evals.Load()),
 		"traces_validated_against_impl": c.Traces.Load(),
@@ -422,4 +422,20 @@ func maxViol() int {
 		}
 	}
 	return 50
+}
+
+// samplesOrOutcomes: evidence always carries a list; a run whose parts recorded no written-out case
+// (e.g. a run restricted with -only) lists its first behaviour classes instead.
+func samplesOrOutcomes(samples []any, classes []string) []any {
+	if len(samples) > 0 {
+		return samples
+	}
+	out := []any{}
+	for i, cl := range classes {
+		if i == 5 {
+			break
+		}
+		out = append(out, map[string]any{"behaviour_class_observed": cl, "note": "no written-out case was recorded by the parts that ran"})
+	}
+	return out
 }
